@@ -5,6 +5,11 @@ import json, subprocess
 LOOPNOTE = 'Trusts: A1 token contract (lower-case tag names, exact serialiser/tokeniser round trip), sanitizeAttrs replaced by an arbitrary-result stub, policy tables of at most 2 entries per kind (an upper bound that is general for one step: one step looks up one name per table), z3 5.1 / cvc5 1.0, go/ssa semantics as interpreted.'
 
 CLAIMED = {
+ "C03": dict(
+   text="Unit-level symbolic execution of the real sanitizeAttrs + validURL for each of the 17 (element, attribute) positions of the statement, with a symbolic scheme allowlist (symbolic scheme keys, each unconditional or guarded by 1-2 opaque custom checks), optional opaque scheme pattern, relative-URL switch and optional opaque src rewriter, on a free raw value. net/url is an uninterpreted function (A3). SMT decides on every path that a surviving value has no white space (data: URIs excepted), parses, has an allowlisted and approved scheme or is a relative reference with relative URLs allowed, and is emitted in normal form / as the rewriter's result. Counterexamples are made concrete by fixing the raw value to candidate URLs with the facts net/url really yields, and replayed through the real code.",
+   note="Trusts: A3 (net/url as uninterpreted ok/scheme/host/normal-form with the axioms listed in DESIGN.md, incl. rejection of control characters); one attribute per tag; scheme table of 1 (quick) / 2 (thorough) entries; z3 5.1 / cvc5 1.0; go/ssa semantics as interpreted.",
+   technique="symbolic execution of go/ssa + SMT (unit harness, uninterpreted URL parser, ground refinement of counterexamples)", design="5 C03"),
+
  "C02": dict(
    text="Unit-level symbolic execution of the real sanitizeAttrs with symbolic element-rule and global-rule tables (symbolic keys, rule lists of every shape up to two rules with opaque value patterns) on up to 2/3 attributes with free keys and values: SMT decides on every path that each emitted attribute equals an input attribute that some applicable rule accepts (spec written from the statement, patterns judged on the decoded value). Separately: isDataAttribute executed on a free key (A1) implies the HTML standard's data-* shape; matchRegex returns rules only from matching patterns; and, on the extracted loop relation (induction), no start/self-closing tag is written with zero attributes unless the element is allowed without attributes.",
    note="Trusts: A1 key alphabet; value patterns as uninterpreted predicates; strings.Split model bounded to 3 parts for the data-attribute check; table sizes 1 (quick) / 2 (thorough) symbolic entries per table; style and URL/link/forced attributes are the subject of C10/C03/C11/C12; z3 5.1 / cvc5 1.0; go/ssa semantics as interpreted.",
